@@ -109,7 +109,7 @@ def main():
     hist = collections.Counter()
     fails, disagreements = [], []
     n = 40 if ck.tier == "quick" else 600
-    n_model = 6 if ck.tier == "quick" else 50
+    n_model = 3 if ck.tier == "quick" else 50
     def all_cases():
         for i, case in enumerate(pool.cases(rng, table, hist, n, noise_share=0.2)):
             yield case
